@@ -44,6 +44,8 @@ func parseCase(r *hx.Run, spec string, raw []byte, onlyCrash bool, tags ...strin
 			fail = "a parsed field is not the corresponding little-endian slice of the input: got " + dumpQuote(got) + " want " + dumpQuote(want)
 		} else if back, e2 := abi.QuoteToAbiBytes(got); e2 != nil || !bytes.Equal(back, raw) {
 			fail = "serialising the parsed quote does not reproduce the input"
+		} else if stale := c09Kept.checkAndKeep(back); stale != "" {
+			fail = stale
 		} else {
 			h, _ := abi.HeaderToAbiBytes(got.Header)
 			t, _ := abi.TdQuoteBodyToAbiBytes(got.TdQuoteBody)
@@ -549,4 +551,26 @@ func c09messages(r *hx.Run, rng *rand.Rand, rawA, rawB []byte, onlyCrash bool) {
 		}
 		serCase(r, q, onlyCrash, "msg:random-wellformed")
 	}
+}
+
+
+// c09Kept: serialised quotes handed to earlier callers stay what they were when later quotes are serialised (the result of a
+// serialisation is the caller's: no scratch buffer shared between calls).
+type c09Retained struct{ out, copyAtReturn [][]byte }
+
+var c09Kept c09Retained
+
+func (k *c09Retained) checkAndKeep(out []byte) string {
+	msg := ""
+	for i := range k.out {
+		if !bytes.Equal(k.out[i], k.copyAtReturn[i]) {
+			msg = "the bytes an earlier QuoteToAbiBytes call returned changed when a later quote was serialised (results share a buffer)"
+			copy(k.copyAtReturn[i], k.out[i])
+		}
+	}
+	k.out, k.copyAtReturn = append(k.out, out), append(k.copyAtReturn, append([]byte{}, out...))
+	if len(k.out) > 4 {
+		k.out, k.copyAtReturn = k.out[1:], k.copyAtReturn[1:]
+	}
+	return msg
 }
